@@ -62,11 +62,23 @@ def doneset(repo, chk):
     params = [p for p in init.params if p != 'self']
     binding = dict(zip(params, [src(a) for a in ctor[0].args]))
     binding.update({k.arg: src(k.value) for k in ctor[0].keywords if k.arg})
+    # main()'s variable -> Computator parameter -> Computator field (roles, not names)
+    field_of_param = {}
+    for s in walk_shallow(init.node):
+        if isinstance(s, ast.Assign) and isinstance(s.targets[0], ast.Attribute) and isinstance(s.value, ast.Name) and s.value.id in params:
+            field_of_param[s.value.id] = s.targets[0].attr
+    # each main() variable is read from the config key OUTPUT_<KIND>_PATH matching the parameter it is bound to
     for p in params:
         if p.startswith('output_'):
-            st = [s for s in walk_shallow(init.node) if isinstance(s, ast.Assign) and isinstance(s.targets[0], ast.Attribute) and s.targets[0].attr == p]
-            ok = binding.get(p) == p and bool(st) and isinstance(st[0].value, ast.Name) and st[0].value.id == p
-            chk.ob('DONESET', main, ctor[0], 'Computator.%s receives main()\'s %s' % (p, p), ok, 'bound to %s' % binding.get(p), construct='binding ' + p)
+            arg = binding.get(p)
+            d = main.flow.resolve(ast.Name(id=arg, ctx=ast.Load()), ctor[0]) if arg and arg.isidentifier() else None
+            key = None
+            if isinstance(d, ast.Call) and d.args and const_str(d.args[-1]):
+                key = const_str(d.args[-1])
+            ok = field_of_param.get(p) == p and key == p.upper()
+            chk.ob('DONESET', main, ctor[0], 'Computator.%s receives the directory configured as %s and keeps it in the field of that name' % (p, p.upper()), ok,
+                   'bound to %s (config key %s), stored in %s' % (arg, key, field_of_param.get(p)), construct='binding ' + p)
+    consulted = {field_of_param.get(p) for p in params if binding.get(p) in consulted}
     write_nodes = {k: [cfg.node_of(n.test) for n in v] for k, v in kinds.items()}
     cons_nodes = [nid for k, v in write_nodes.items() if k in consulted for nid in v]
     need(cons_nodes, 'no consulted output kind is written at all')
